@@ -51,8 +51,14 @@ Definition spec_C11 (c : c11case) (obs : list Z) : bool :=
    4 (open)  a reference deletion record removes only the exactly named version of the reference: an
              older version of the same reference (added concurrently on another peer) stays visible on a
              peer that holds the record *)
+(* 5 (open)  two deletion records of one row with the SAME deletion millisecond (the row deleted on two
+             peers in the same millisecond while they held different versions) have the same key and
+             replace each other: one of them is not present everywhere at the end *)
+Definition key_clash (c : c11case) : bool :=
+  let all := flat_map (fun S => flat_map tombs S) (run_trace (init_sys (c11_n c)) (c11_ops c)) in
+  existsb (fun a => existsb (fun b => same_key a b && negb (tomb_eqb a b)) all) all.
 Definition known_C11 (c : c11case) : list Z :=
-  if run_refs_coherent (init_sys (c11_n c)) (c11_ops c) then [] else [4].
+  (if run_refs_coherent (init_sys (c11_n c)) (c11_ops c) then [] else [4]) ++ (if key_clash c then [5] else []).
 
 (* the envelope of C11_holds, decided on the model's run: every creation uses an id the peer does
    not know yet (the code draws fresh uids) and no local update carries a clock that is behind the
